@@ -39,6 +39,10 @@ static uint64_t rnd(void)
 	return g_s[1] + s0;
 }
 
+unsigned long long v_rand(void) { return rnd(); }
+int v_replaying(void);
+void v_update(const char* name, const void* p, size_t n);
+
 static void gen(unsigned char* p, size_t n)
 {
 	size_t i, m = rnd() % 10;
@@ -84,6 +88,17 @@ void v_read(const char* name, void* p, size_t n)
 	else
 		gen((unsigned char*)p, n);
 	record(name, p, n);
+}
+
+int v_replaying(void) { return g_mode == 0; }
+
+/* a native-only tweak changed an input after it was read: record the new value */
+void v_update(const char* name, const void* p, size_t n)
+{
+	size_t i;
+	for (i = 0; i < g_nrec; ++i)
+		if (strcmp(g_rec[i].name, name) == 0 && g_rec[i].len == n)
+			memcpy(g_rec[i].data, p, n);
 }
 
 void* v_buf(const char* name, size_t n)
